@@ -35,7 +35,7 @@ META = {
     "design_ref": "7/C46",
     "shards": {"quick": 2, "thorough": 16},
     "budget_s": {"quick": 45, "thorough": 300},
-    "min_evals": {"quick": 800, "thorough": 20000},
+    "min_evals": {"quick": 800, "thorough": 12000},
     "deciding": ["tape.specs", "qnode.specs", "expr.arith"],
     "rule": "case = (quantum function recipe, measurements, user transforms, level) or one expression tree; distinct = fingerprint of these; "
             "non-trivial = depth differs from both the number of operations and 1 (real parallelism and real dependencies), or a level that "
@@ -546,7 +546,7 @@ def run(ctx):
 
     warnings.filterwarnings("ignore")
     UT = make_user_transforms(qp)
-    N = ctx.n(900, 48000)
+    N = ctx.n(900, 16000)
     indices = range(ctx.shard, N * ctx.nshards, ctx.nshards)
     if ctx.only_case is not None:
         indices = [ctx.only_case]
